@@ -1,7 +1,7 @@
 SPECIFICATION GSpec
 CONSTANTS
   MaxOps = 5
-  MaxLen = 7
+  MaxLen = 6
   MaxSeats = 3
   Nodes = {1}
   Modes = {"keygen"}
